@@ -142,12 +142,22 @@ func collisionScenario(mode string, big bool) *Desc {
 func panicScenario(mode string, big bool) *Desc {
 	d := base("panic", mode)
 	d.Mappings = []MapDesc{{Name: "M0", Keys: km{K1: {60, 0}, K2: {60, 0}, K3: {64, 0}}}}
-	acts(d, PA, "panic", CU, "channel_up", OU, "octave_up")
+	acts(d, PA, "panic", CU, "channel_up", OU, "octave_up", OD, "octave_down") // OU+OD: panic is also injected while a pair is held
 	if big {
-		acts(d, CD, "channel_down", OD, "octave_down")
+		acts(d, CD, "channel_down")
 		d.Mappings[0].Keys[K4] = KeyNote{60, 1}
 	}
 	d.OctLo, d.OctHi = 0, 1
+	d.ChSet = []int{0, 1}
+	return d
+}
+
+// panicAxisScenario: panic bound to a hat (both directions), interleaved with CC-learning, channel changes and a held note
+func panicAxisScenario(mode string) *Desc {
+	d := base("panic-axis", mode)
+	d.Mappings = []MapDesc{{Name: "M0", Keys: km{K1: {60, 0}, K2: {60, 0}}, Axes: []AxisDesc{
+		{Name: "ABS_HAT0Y", Type: "action", Action: "panic", ActNeg: "panic", Min: -1, Max: 1, Deadzone: 0, Pos: []int32{-1, 0, 1}}}}}
+	acts(d, LE, "cc_learning", CU, "channel_up")
 	d.ChSet = []int{0, 1}
 	return d
 }
@@ -296,6 +306,8 @@ func jobsFor(prop, tier string) []job {
 		for _, m := range modes {
 			add(panicScenario(m, big), false, cap, "panic")
 		}
+		add(panicAxisScenario("interrupt"), false, cap, "panic")
+		add(panicAxisScenario("no_repeat"), false, cap, "panic")
 	case "C14":
 		for _, d := range exitScenarios() {
 			add(d, true, cap, "exit")
